@@ -133,8 +133,23 @@ def run_history(case, ctx):
         prev = theta
         for k in range(steps + 1):
             if k > 0:
-                style = pr.choice(ansatzlib.STYLES + ["minus_prev"])
-                theta = [-x for x in prev] if style == "minus_prev" else ansatzlib.rand_params(pr, nvp, style)
+                style = pr.choice(ansatzlib.STYLES + ["minus_prev", "same_zero_pattern", "same_zero_pattern"])
+                if style == "minus_prev":
+                    theta = [-x for x in prev]
+                elif style == "same_zero_pattern":
+                    # frozen / masked amplitudes: new values, zeros stay where they were (if there were none, mask some first)
+                    if all(x != 0.0 for x in prev):
+                        prev = [0.0 if pr.random() < 0.4 else x for x in prev]
+                        hist.append(["update", "mask", prev])
+                        if kind == "ADAPT":
+                            ans.set_var_params(list(prev))
+                        ans.update_var_params(list(prev))
+                    fresh_vals = ansatzlib.rand_params(pr, len(prev), "uniform")
+                    theta = [0.0 if x == 0.0 else y for x, y in zip(prev, fresh_vals)]
+                else:
+                    theta = ansatzlib.rand_params(pr, nvp, style)
+                if len(theta) != nvp:
+                    theta = ansatzlib.rand_params(pr, nvp, "uniform")
                 if kind == "ADAPT" and k == steps // 2:
                     # interleave add_operator: grows the parameter vector by one
                     from tangelo.algorithms.variational import ADAPTSolver
